@@ -12,7 +12,8 @@ INF = 10 ** 9
 # "rich" pools are for triage / thorough.
 POOLS = {
     'lite': {
-        'ID': ['a', 'b', 't1', 'col1', 'x1', 'int1', 'pred', '`a b`', '`select`', 'T2'],
+        'ID': ['a', 'b', 't1', 'col1', 'x1', 'int1', 'pred', '`a b`', '`select`', 'T2', '`in$stock`', '`select$1`',
+               '`1abc`', '`x$y`', '$a', '`a-b`', '`from`'],
         'INTEGER': ['0', '1', '2', '10'],
         'FLOAT': ['1.5', '0.25'],
         'QUOTE_STRING': ["'x'", "'a b'", "''", "'2020-01-01'"],
@@ -115,7 +116,8 @@ class GrammarGen:
     # identifier spellings used in tame mode instead of deriving `identifier` (no keyword-spelled parts, no star or
     # integer parts in the middle)
     TAME_IDENTIFIERS = [['a'], ['b'], ['t1'], ['col1'], ['t1', '.', 'a'], ['int1', '.', 't1'], ['`a b`'],
-                        ['`select`'], ['x1', '.', '`a b`'], ['T2'], ['pred'], ['proj', '.', 'pred']]
+                        ['`select`'], ['x1', '.', '`a b`'], ['T2'], ['pred'], ['proj', '.', 'pred'], ['`as$of`'],
+                        ['`select$1`'], ['t1', '.', '`or$`'], ['`1abc`'], ['$a'], ['`a-b`'], ['`order`', '.', '`by`']]
 
     def sentence(self, start=None, budget=st.integers(3, 7), pool='lite', tame=False):
         """Strategy for a token list (strings) derived from `start` (a nonterminal, or None = stratified).
